@@ -118,13 +118,21 @@ func (r *reqSpec) httpRequest() *http.Request {
 	return req
 }
 
-// serverView: the key segments as the server reads them (it splits RawPath, or Path when RawPath is empty)
-func serverSegments(req *http.Request) []string {
-	p := req.URL.RawPath
-	if p == "" {
-		p = req.URL.Path
+// serverSegments: the path segments as a server mounted at prefix reads them: it splits what
+// follows its (normalised) prefix in URL.EscapedPath(); nil when the request is not under the prefix
+func serverSegments(req *http.Request, prefix *string) []string {
+	p := "/"
+	if prefix != nil && *prefix != "" {
+		p = *prefix
 	}
-	return strings.Split(strings.TrimPrefix(p, "/"), "/")
+	if !strings.HasSuffix(p, "/") {
+		p += "/"
+	}
+	path := req.URL.EscapedPath()
+	if !strings.HasPrefix(path, p) {
+		return nil
+	}
+	return strings.Split(strings.TrimPrefix(path, p), "/")
 }
 
 func (r *reqSpec) sexp(req *http.Request, dec []string) string {
@@ -133,7 +141,7 @@ func (r *reqSpec) sexp(req *http.Request, dec []string) string {
 	if r.hdr != nil {
 		b.WriteString(" (" + enc("X-RestLi-Method") + " " + enc(*r.hdr) + ")")
 	}
-	b.WriteString(") (raw " + enc(req.URL.RawPath) + " " + enc(req.URL.Path) + ") (p")
+	b.WriteString(") (raw " + enc(req.URL.EscapedPath()) + " " + enc(req.URL.Path) + ") (p")
 	for _, s := range r.spec {
 		b.WriteString(" " + enc(s))
 	}
